@@ -1532,8 +1532,13 @@ func (x *Exec) loadElem(fr *Frame, st *State, b Backing, idx Term, et types.Type
 		tag := Select(Select(x.heapGet(st, "elems|iface#t", arrOf(arrOf(SInt))), b.Ref), idx)
 		if n, ok := et.(*types.Named); ok && n.Obj().Pkg() != nil && strings.HasSuffix(n.Obj().Pkg().Path(), "reflect/protoreflect") {
 			// descriptor slices built by the protobuf runtime / makeTarget never hold nil entries
-			x.vc.assumption("slices of protoreflect descriptors contain no nil entries")
-			x.assume(st, Gt(tag, IntLit(0)))
+			// (not for arrays the function under verification allocated itself - there the claim
+			// is what has to be proved, see resolvePathToFieldDescriptors - and not inside specs)
+			_, own := b.Ref.Lit()
+			if !own && !x.inSpec && !strings.Contains(tag.S, "!q") {
+				x.vc.assumption("slices of protoreflect descriptors received from elsewhere contain no nil entries")
+				x.assume(st, Gt(tag, IntLit(0)))
+			}
 		}
 		return VIface{tag, Select(Select(x.heapGet(st, "elems|iface#v", arrOf(arrOf(SInt))), b.Ref), idx)}
 	case KSlice:
